@@ -4,7 +4,7 @@
     [rsum f n] = f 0 + ... + f (n-1); [dlt] = Kronecker delta; [ment M i j] = entry (i,j) of a list-of-rows matrix.
     All statements are over the reals, for every dimension. *)
 From Coq Require Import Reals List.
-From LP Require Import Num NumR C15_Model C15_Proofs C15_Proofs_QR C15_Proofs_Scale C15_Proofs_Iter.
+From LP Require Import Num NumR C15_Model C15_Proofs C15_Proofs_QR C15_Proofs_Scale C15_Proofs_Iter C15_Proofs_Session.
 Import ListNotations.
 Local Open Scope R_scope.
 
@@ -251,3 +251,50 @@ Theorem C15_iteration_hypotheses_satisfiable :
   mvec ROps minv [0; 1] = map (Rmult 3) [0; 1] /\ vdot ROps [0; 1] [1; 0] = 0.
 Proof. exact ex_iter_hyp. Qed.
 Print Assumptions C15_iteration_hypotheses_satisfiable.
+
+(** ** "Eigensystem/Eigenvectors ... return, for each eigenvalue, a unit vector v and value lambda with M*v equal to lambda*v" — for the value
+    the Matrix object has when the call is made.  In a session (calls on one or two objects, the caller writing into the objects between the
+    calls: rows and columns exchanged, diagonal entries exchanged, sign, scale, transpose, copy, the other object) the model's answer to a call
+    after ANY operations is the answer of a fresh call on the current value, and the call leaves both objects as they are. *)
+Theorem C15_session_call_is_fresh (m : list (list R)) (pre : list (sop (T := R))) (o : sop (T := R)) :
+  is_call o = true ->
+  let st := snd (session ROps m pre) in
+  session ROps m (pre ++ [o]) = (fst (session ROps m pre) ++ [fresh_answer (fst st) o], st).
+Proof. exact (session_call_is_fresh m pre o). Qed.
+Print Assumptions C15_session_call_is_fresh.
+
+(** Relabelling the basis (the exchange of the rows i, j and the columns i, j of the object, [sym_swap]) keeps symmetry, the trace and the
+    sum of the squared entries (the Frobenius norm), and every eigenpair (lambda, v) of M becomes the eigenpair (lambda, v with the
+    components i and j exchanged): dimension, trace and norm do not identify the matrix an answer belongs to. *)
+Theorem C15_relabelling_keeps_symmetry n i j (m : list (list R)) : wf n m -> (i < n)%nat -> (j < n)%nat ->
+  (forall r c, (r < n)%nat -> (c < n)%nat -> ment ROps m r c = ment ROps m c r) ->
+  forall r c, (r < n)%nat -> (c < n)%nat -> ment ROps (sym_swap ROps m i j) r c = ment ROps (sym_swap ROps m i j) c r.
+Proof. exact (sym_swap_symmetric n i j m). Qed.
+Print Assumptions C15_relabelling_keeps_symmetry.
+
+Theorem C15_relabelling_keeps_trace n i j (m : list (list R)) : wf n m -> (i < n)%nat -> (j < n)%nat ->
+  rsum (fun k => ment ROps (sym_swap ROps m i j) k k) n = rsum (fun k => ment ROps m k k) n.
+Proof. exact (sym_swap_trace n i j m). Qed.
+Print Assumptions C15_relabelling_keeps_trace.
+
+Theorem C15_relabelling_keeps_norm n i j (m : list (list R)) : wf n m -> (i < n)%nat -> (j < n)%nat ->
+  rsum (fun r => rsum (fun c => ment ROps (sym_swap ROps m i j) r c * ment ROps (sym_swap ROps m i j) r c) n) n =
+  rsum (fun r => rsum (fun c => ment ROps m r c * ment ROps m r c) n) n.
+Proof. exact (sym_swap_norm2 n i j m). Qed.
+Print Assumptions C15_relabelling_keeps_norm.
+
+Theorem C15_relabelling_moves_eigenvectors n i j (m : list (list R)) : wf n m -> (i < n)%nat -> (j < n)%nat ->
+  forall (v : nat -> R) (lam : R),
+  (forall r, (r < n)%nat -> rsum (fun c => ment ROps m r c * v c) n = lam * v r) ->
+  forall r, (r < n)%nat -> rsum (fun c => ment ROps (sym_swap ROps m i j) r c * v (transp i j c)) n = lam * v (transp i j r).
+Proof. exact (sym_swap_eigenpair n i j m). Qed.
+Print Assumptions C15_relabelling_moves_eigenvectors.
+
+(** non-vacuity: [[2, 2], [2, -1]] and its relabelling [[-1, 2], [2, 2]]; (2, 1) is an eigenvector (eigenvalue 3) of the first only *)
+Theorem C15_relabelling_example :
+  let m := [[2; 2]; [2; -1]] in
+  wf 2 m /\ sym_swap ROps m 0 1 = [[-1; 2]; [2; 2]] /\
+  mvec ROps m [2; 1] = map (Rmult 3) [2; 1] /\ mvec ROps (sym_swap ROps m 0 1) [1; 2] = map (Rmult 3) [1; 2] /\
+  mvec ROps (sym_swap ROps m 0 1) [2; 1] <> map (Rmult 3) [2; 1].
+Proof. exact relabel_example. Qed.
+Print Assumptions C15_relabelling_example.
